@@ -299,7 +299,7 @@ func runC20(r *mon.Run) {
 	if r.Config == "asm" || r.Config == "purego" {
 		r.Note("not a race build: only result equality under concurrency is observed")
 	}
-	r.Require("c20:first-use:goroutines", "c20:overlapping-call-pairs-same-object", "c20:concurrent-calls")
+	r.Require("c20:fresh-object-first-use-calls", "c20:first-use:goroutines", "c20:overlapping-call-pairs-same-object", "c20:concurrent-calls")
 	r.Seq("c20/concurrent", 1, func(w *mon.W, _ int) {
 		// Phase 1 - first use: released from a barrier, every goroutine's first action in this
 		// process is a library call that reads the package-level tables.
@@ -328,6 +328,84 @@ func runC20(r *mon.Run) {
 				w.Fail("c20/first-use:result", fmt.Sprintf("goroutine %d: first concurrent use of the tables returned a wrong result", g))
 			}
 		}
+		// Phase 1b - first use of FRESH objects by all goroutines at once.  A lazily
+		// initialised field (cached encoding, cached x-only key, rescaled point, ...)
+		// races only on the first calls per object, so the pattern is: build fresh
+		// objects, release all goroutines from a barrier, every goroutine immediately
+		// calls every accessor (rotated start), repeat with new objects.
+		rounds := r.N(10, 60)
+		nFresh := 0
+		for round := 0; round < rounds; round++ {
+			rng := gen.New(r.Seed, round, "C20", "fresh", strconv.Itoa(batch))
+			build := func() []func() []byte {
+				dv, _ := keyValue(gen.New(r.Seed, round, "C20", "fresh-key", strconv.Itoa(batch)))
+				priv := mustPriv(dv)
+				pub, _ := secec.NewPublicKey(oracle.EncodeUncompressed(oracle.MulG(dv)))
+				spriv := bitcoin.NewSchnorrPrivateKeyFromECDSA(priv)
+				spub, _ := bitcoin.NewSchnorrPublicKey(b32(oracle.MulG(dv).X))
+				pt := pointRep(oracle.MulG(new(big.Int).Add(dv, big.NewInt(1))), big.NewInt(int64(3+round)))
+				if pt == nil {
+					pt = secp256k1.NewGeneratorPoint()
+				}
+				sc := scalarFromBig(dv)
+				dig := bytes.Repeat([]byte{byte(round)}, 32)
+				return []func() []byte{
+					func() []byte { return pub.CompressedBytes() },
+					func() []byte { return pub.Bytes() },
+					func() []byte { return pub.ASN1Bytes() },
+					func() []byte { return pub.Point().CompressedBytes() },
+					func() []byte { return priv.PublicKey().CompressedBytes() },
+					func() []byte { return priv.Bytes() },
+					func() []byte { return priv.Scalar().Bytes() },
+					func() []byte { return spriv.PublicKey().Bytes() },
+					func() []byte { return spriv.Bytes() },
+					func() []byte { return spub.Bytes() },
+					func() []byte { return spub.Point().CompressedBytes() },
+					func() []byte { return bitcoin.NewSchnorrPublicKeyFromECDSA(pub).Bytes() },
+					func() []byte { return pt.CompressedBytes() },
+					func() []byte { return pt.UncompressedBytes() },
+					func() []byte { b, _ := pt.XBytes(); return b },
+					func() []byte { return []byte{byte(pt.IsYOdd()), byte(pt.IsIdentity())} },
+					func() []byte { return sc.Bytes() },
+					func() []byte { return []byte{byte(sc.IsGreaterThanHalfN()), byte(sc.IsZero())} },
+					func() []byte { sh, _ := priv.ECDH(pub); return sh },
+					func() []byte { sig, _ := priv.Sign(secec.RFC6979SHA256(), dig, nil); return sig },
+					func() []byte { sig, _ := spriv.Sign(&fixedReader{data: dig}, dig, nil); return sig },
+					func() []byte { return new(Point).ScalarMult(sc, pt).CompressedBytes() },
+					func() []byte { return []byte{byte(boolU64(pub.Equal(priv.PublicKey()))), byte(boolU64(spub.Equal(spriv.PublicKey())))} },
+				}
+			}
+			acc := build()
+			ref := build() // an identical, separately built object set for the sequential reference
+			_ = rng
+			outs := make([][][]byte, G)
+			gate1b := make(chan struct{})
+			for g := 0; g < G; g++ {
+				wg.Add(1)
+				go func(g int) {
+					defer wg.Done()
+					my := make([][]byte, len(acc))
+					<-gate1b
+					for j := range acc {
+						k := (j + g) % len(acc)
+						my[k] = acc[k]()
+					}
+					outs[g] = my
+				}(g)
+			}
+			close(gate1b)
+			wg.Wait()
+			for k := range ref {
+				want := ref[k]()
+				for g := 0; g < G; g++ {
+					nFresh++
+					if !bytes.Equal(outs[g][k], want) {
+						w.Fail("c20/fresh-first-use:result", fmt.Sprintf("round %d, goroutine %d, accessor #%d on freshly built shared objects returned %x, the same call on an identical object set run alone returns %x", round, g, k, outs[g][k], want), "batch", batch)
+					}
+				}
+			}
+		}
+		w.ClassN("c20:fresh-object-first-use-calls", int64(nFresh))
 		// Phase 2 - shared objects, many goroutines
 		shared := buildShared(r.Seed, batch)
 		var ctr int64
